@@ -435,4 +435,71 @@ def runCallsPooled {M} (c : Codec M) : List (Call M) → CallState M → CallSta
   | [], st => st
   | call :: rest, st => runCallsPooled c rest (callStepPooled c st call)
 
+/-! ## histories of one message OBJECT
+
+A codec call is handed an object the caller keeps: it was encoded or sized before
+(`proto.Size`, `Marshal`, `MarshalAppend`, `MarshalStable`), nested or top-level fields were
+changed in between, or the caller went on with a `proto.Clone`.  `internal/codec.go` encodes with
+`proto.MarshalOptions{}` / `{Deterministic: true}` / `protojson.MarshalOptions{}`: nothing an
+earlier call left in the object is consulted (`UseCachedSize` is off), so every encode call
+returns the encoding of the object's CURRENT value.  One entry of `outs` per step. -/
+
+inductive HStep (M : Type) where
+  /-- `Marshal` / `MarshalStable` / `MarshalAppend` of the object as it is now -/
+  | encode
+  /-- `proto.Size` of the object (result dropped) -/
+  | size
+  /-- the caller changes the object (a field of a nested message, or a top-level field) -/
+  | mutate (f : M → M)
+  /-- the caller continues with `proto.Clone` of the object -/
+  | clone
+
+structure HistState (M : Type) where
+  value : M
+  outs : List (Option (Option Bytes)) := []
+
+def histStep {M} (c : Codec M) (st : HistState M) : HStep M → HistState M
+  | .encode => { value := st.value, outs := st.outs ++ [some (strictMarshal c st.value)] }
+  | .size => { value := st.value, outs := st.outs ++ [none] }
+  | .mutate f => { value := f st.value, outs := st.outs ++ [none] }
+  | .clone => { value := st.value, outs := st.outs ++ [none] }
+
+def runHist {M} (c : Codec M) : List (HStep M) → HistState M → HistState M
+  | [], st => st
+  | s :: rest, st => runHist c rest (histStep c st s)
+
+/-- the value of the object after a history: only the caller's changes count -/
+def valueAfter {M} : List (HStep M) → M → M
+  | [], v => v
+  | .mutate f :: rest, v => valueAfter rest (f v)
+  | _ :: rest, v => valueAfter rest v
+
+/-- the caller's changes of a history alone (every encode / size / clone step removed) -/
+def mutationsOf {M} : List (HStep M) → List (HStep M)
+  | [] => []
+  | .mutate f :: rest => .mutate f :: mutationsOf rest
+  | _ :: rest => mutationsOf rest
+
+/-- counter-model (witness only): the object remembers the value its nested sizes were computed
+for (`sized`), every sizing / encoding refreshes it only when nothing is remembered yet, and
+encoding with `UseCachedSize` fails ("size mismatch") when the remembered value is not the
+current one.  A clone remembers nothing. -/
+structure HistStateCached (M : Type) where
+  value : M
+  sized : Option M := none
+  outs : List (Option (Option Bytes)) := []
+
+def histStepCached {M} [DecidableEq M] (c : Codec M) (st : HistStateCached M) : HStep M → HistStateCached M
+  | .encode =>
+    let ok := match st.sized with | none => true | some v => decide (v = st.value)
+    { value := st.value, sized := some (st.sized.getD st.value),
+      outs := st.outs ++ [some (if ok then strictMarshal c st.value else none)] }
+  | .size => { value := st.value, sized := some (st.sized.getD st.value), outs := st.outs ++ [none] }
+  | .mutate f => { value := f st.value, sized := st.sized, outs := st.outs ++ [none] }
+  | .clone => { value := st.value, sized := none, outs := st.outs ++ [none] }
+
+def runHistCached {M} [DecidableEq M] (c : Codec M) : List (HStep M) → HistStateCached M → HistStateCached M
+  | [], st => st
+  | s :: rest, st => runHistCached c rest (histStepCached c st s)
+
 end ConfModel.Convert
